@@ -87,7 +87,7 @@ class Emitter:
             for d in (-2, -1, 0, 1, 2):
                 table[(1 << fw) + d] = (1 << tw) + d
                 table[-(1 << fw) + d] = -(1 << tw) + d
-        lim = 1 << (self.scale - 1)   # literals that fit the scaled signed range stay as they are
+        lim = 1 << (w - 1)   # literals that fit the scaled signed range of THIS type stay as they are
         if -lim <= sv <= lim - 1:
             r = sv
         elif lim <= sv <= 2 * lim - 1 and sv <= 7:
@@ -115,6 +115,9 @@ class Emitter:
         for full, sc in ((32, W), (64, 2 * W), (128, 4 * W)):
             if n == full and full - 6 <= v < full and sc - (full - v) >= 0:
                 return sc - (full - v)
+        # a small amount far from the top of the type is an ordinary scaling shift (array indexing, multiplication by 2^k)
+        if v < w and v < n - 8:
+            return v
         raise IRError('unscalable shift amount %d' % v)
 
     # ------------------------------------------------------------------ types
